@@ -75,7 +75,10 @@ class Sys(e1.TimedSys):
         self.model = Model()
         self.L = {n: ClientRec(n, self.log, self.loop) for n in ("L1", "L2", "L3")}
         self.wire = {}  # (src, multicast) -> last session id sent
-        self.prot.discovery.watch_service(cfg_.Service(self.sid), self.L["L1"])
+        if cfg.get("no_L1"):
+            self.model.registered["L1"] = False  # nobody watches until the control registers L2
+        else:
+            self.prot.discovery.watch_service(cfg_.Service(self.sid), self.L["L1"])
         self.step_reboots = []
         self.step_kinds = []
         self.flags = {}  # (src, multicast) -> reboot flag the source currently sends
@@ -288,6 +291,10 @@ def configs(ctx):
         [("S1", "offX2+offY1", "r", mc)] + [("S2", n, e, mc) for n in ("offX2", "stopX") for e in ("n", "r")]
     out.append(("full-menu", dict(sid=sid, advs=base, menu=menu, controls=("L2", "L3", "connlost"),
                                   deviations=ctx.pick(0, 1), fine=1), ctx.pick(4, 6)))
+    # one listener only, which comes and goes: what happens to a once-watched service while nobody watches still counts
+    solo = [("S1", n, "n", mc) for n in ("offX1", "offX2", "offXinf", "stopX")]
+    out.append(("L2-comes-and-goes", dict(sid=sid, advs=(None, "half", "next"), menu=solo, controls=("L2",), deviations=0, fine=0,
+                                          no_L1=True), CLOSURE))
     uf = [("S1", n, e, mc) for n in ("offX2", "stopX", "offY1") for e in ("n", "r", "nu", "ru")]
     out.append(("S1-unicast-flag-clear", dict(sid=sid, advs=(None, "next"), menu=uf, controls=(), deviations=0, fine=0), CLOSURE))
     alias = [(c, n, "n", mc) for c in ("S1", "S5", "S3", "S4") for n in ("offX2", "stopX")] + \
